@@ -146,6 +146,9 @@ def job_shift(ctx, shape, offs, utc=False, ranges=None):
             body = ["P"] + (["T"] if unit in "HMS" and unit != "m" else []) + list(SymStr.lift(strs.str_of_int(n))) + [unit.upper() if unit != "m" else "M"]
             if unit == "mo":
                 body = ["P"] + list(SymStr.lift(strs.str_of_int(n))) + ["M"]
+            if unit == "altd":
+                # the date-time-like notation P[YYYY]-[MM]-[DD]T[hh]: n days
+                body = list("P0000-00-") + strs.digits_of(n, 2) + list("T00")
             out.append(SymStr.make(([sgn] if sgn else []) + body))
         return out
 
@@ -182,6 +185,9 @@ def job_shift(ctx, shape, offs, utc=False, ranges=None):
     def case_of(v, i):
         argv = [item_text(v, shape, "i")]
         for k, (sgn, unit) in enumerate(offs):
+            if unit == "altd":
+                argv.append("--offset=%sP0000-00-%02dT00" % (sgn or "", v["off%d" % k]))
+                continue
             u = {"mo": "M"}.get(unit, unit.upper())
             argv.append("--offset=%sP%s%d%s" % (sgn or "", "T" if unit in ("H", "M", "S") else "", v["off%d" % k], u))
         if utc:
@@ -392,6 +398,9 @@ CONCRETE = [
     (["20200101T0530+0530", "--utc", "--offset=P1M"], {}),
     (["2020-06-15T12:00:00", "--offset=P1D"], {}),
     (["2020-01-31T00Z", "--offset=P1M", "--offset=-P1D", "--print-format=CCYY-DDD"], {}),
+    (["2020-03-31T06:00Z", "-u", "--offset=-P0000-01-00T00"], {}), (["2020-03-31T06:00Z", "--offset=-P00000100T00"], {}),
+    (["2020-03-31T06:00Z", "--offset=+P0000-00-01T06:30:00"], {}), (["2020-03-31T06:00Z", "--offset=P0001-00-00T00"], {}),
+    (["2020-01-01T00Z", "2020-01-01T00Z", "--offset1=-P0000-00-02T00", "--offset2=-P0000-01-00T00"], {}),
     (["2020-01-31T00Z", "-s", "P1M", "-f", "%Y/%m/%d"], {}),
     (["2020-01-01T00Z", "2021-03-01T06:30Z", "--print-format=y,m,d,h,M,s"], {}),
     (["2020-03-01T00Z", "2020-01-01T00Z"], {}),
@@ -593,6 +602,9 @@ def jobs(tier):
         rg = {"iMM0": (0, 1)} if "MM" in d else None
         for offs in (OFFS if (th or shape == SHAPES[0]) else OFFS[:2]):
             J.append(("job_shift", dict(shape=shape, offs=offs, ranges=pins_for("i"))))
+    # offsets written in the date-time-like duration notation, either sign
+    J.append(("job_shift", dict(shape=SHAPES[0], offs=[("-", "altd")], ranges=pins_for("i"))))
+    J.append(("job_shift", dict(shape=SHAPES[0], offs=[("+", "altd"), ("-", "H")], ranges=pins_for("i"))))
     J.append(("job_shift", dict(shape=SHAPES[1], offs=[("", "D")], utc=True, ranges=pins_for("i"))))
     J.append(("job_shift", dict(shape=SHAPES[6], offs=[("-", "H")], utc=True, ranges=pins_for("i"))))
     W = {"aMM0": (0, 0), "aMM1": (1, 2), "bMM0": (0, 0), "bMM1": (1, 3)}
@@ -635,7 +647,7 @@ INFO = {
                    "--print-format, -s/-f), the two environment variables and 22 malformed argument vectors are run concretely "
                    "in fresh processes.",
     "bounds": {"quick": {"items": "7 notations (extended/basic calendar, ordinal, week; with/without time and zone), every digit symbolic",
-                         "offsets": "P[n]D, -PT[n]H, +P[n]M, and a pair, n in 0..40 symbolic", "digits": "years 2000-2009; month 01/02/11/12, day 20-39, day-of-year 35x/36x, week 5x, hour 20-29, minute/second 50-59, zone 0x:30 (so the explored region straddles month, year and day ends and includes invalid field values); differences: February/March 2003-2004", "differences": "extended/extended and basic/extended calendar notations; --as-total H/M/S",
+                         "offsets": "P[n]D, -PT[n]H, +P[n]M, a pair, and the date-time-like notation -P0000-00-[dd]T00 / +P0000-00-[dd]T00 with -PT[n]H, n in 0..40 symbolic", "digits": "years 2000-2009; month 01/02/11/12, day 20-39, day-of-year 35x/36x, week 5x, hour 20-29, minute/second 50-59, zone 0x:30 (so the explored region straddles month, year and day ends and includes invalid field values); differences: February/March 2003-2004", "differences": "extended/extended and basic/extended calendar notations; --as-total H/M/S",
                          "recurrences": "R[n]/start/P[k]D, R[n]/P[k]D/end (n in 1, 2, 4, 9), R/start/P[k]D with --max=3, interval k in 1..40 days symbolic"},
                "thorough": {"offsets": "all four offset lists for every notation", "recurrences": "--max in 1, 3, 5"}},
     "outside": ["the malformed-argument clause beyond the bounded symbolic mutations (every window of 1-2 printable-ASCII characters in 6 valid argument vectors) and the 22 concrete vectors and the bounded symbolic mutations (argparse and CPython's regex engine on arbitrary text are not executed symbolically)",
